@@ -212,3 +212,37 @@ def keyed_by_rule(ctx, rid):
                        "and incoming reads of the committed run disagree" % (fld, "/".join(ends), WANT[fld]), c.loc())
             k += 1
     ctx.floor(rid, "keyed accesses to the adjacency maps", n3, 4)
+
+    # the frozen run: edges_by_src must be filled from `out` and edges_by_dst from `in_`
+    fb = ctx.body(S + "memtable::MemTable::freeze_into_run")
+    news = [c for c in fb.calls() if c.name.endswith("L0Run::new")]
+    ctx.floor(rid, "L0Run::new calls in freeze_into_run", len(news), 1)
+    nb = F.bodies.get(news[0].name) if news else None
+    if nb is not None:
+        pname = {ai: nb.local_name(ai + 1) for ai in range(nb.argc)}
+        FROM = {"edges_by_src": "out", "edges_by_dst": "in_"}
+        from ..mirutil import peel_refs
+        for ai, a in enumerate(news[0].args):
+            want = FROM.get(pname.get(ai))
+            if not want:
+                continue
+            from ..mirutil import value_root as _vr
+            ml = _vr(fb, op_local(a)) if op_local(a) is not None else None
+            srcs = set()
+            for ins in fb.calls():
+                if not ins.name.endswith("::insert") or not ins.args or op_local(ins.args[0]) is None or peel_refs(fb, op_local(ins.args[0])) != ml:
+                    continue
+                # the loop this insert sits in: the iterator's `next` call that dominates it inside the cycle
+                cyc = fb.reachable(fb.succs(ins.bb))
+                for nx in fb.calls():
+                    if nx.name.endswith("::next") and nx.bb in cyc and fb.dominates(nx.bb, ins.bb) and nx.args:
+                        it = peel_refs(fb, op_local(nx.args[0])) if op_local(nx.args[0]) is not None else None
+                        o = fb.origin(it) if it is not None else None
+                        if o and o[0] == "call" and o[1].name.endswith("::into_iter"):
+                            f_ = recv_field(fb, o[1], 0)
+                            if f_:
+                                srcs.add(f_[0])
+            n3 += 1
+            ctx.instance(rid, "freeze_into_run: L0Run.%s filled from MemTable.%s" % (pname[ai], sorted(srcs) or "?"))
+            ctx.oblige(srcs == {want}, rid, "freeze_into_run:%s-from-%s" % (pname[ai], "+".join(sorted(srcs)) or "unknown"),
+                       "the frozen run's %s is filled from MemTable.%s instead of MemTable.%s: outgoing and incoming adjacency of the committed run are swapped" % (pname[ai], sorted(srcs), want), fb.file)
